@@ -90,7 +90,7 @@
 #endif
 
 /** creates a Qx.frac from fval in coap_fixed_point_t */
-#define Q(frac,fval) ((uint16_t)(((1 << (frac)) * fval.integer_part) + \
+#define Q(frac,fval) ((uint32_t)(((1 << (frac)) * fval.integer_part) + \
                                  ((1 << (frac)) * fval.fractional_part + 500)/1000))
 
 /** creates a Qx.FRAC_BITS from session's 'ack_random_factor' */
@@ -1127,7 +1127,8 @@ coap_send_message_type_lkd(coap_session_t *session, const coap_pdu_t *request,
  */
 unsigned int
 coap_calc_timeout(coap_session_t *session, unsigned char r) {
-  unsigned int result;
+  /* 64 bits: the setters accept values up to 65535.999 for both parameters */
+  uint64_t result;
 
   /* The integer 1.0 as a Qx.FRAC_BITS */
 #define FP1 Q(FRAC_BITS, ((coap_fixed_point_t){1,0}))
@@ -1137,7 +1138,7 @@ coap_calc_timeout(coap_session_t *session, unsigned char r) {
 
   /* Inner term: multiply ACK_RANDOM_FACTOR by Q0.MAX_BITS[r] and
    * make the result a rounded Qx.FRAC_BITS */
-  result = SHR_FP((ACK_RANDOM_FACTOR - FP1) * r, MAX_BITS);
+  result = SHR_FP((uint64_t)(ACK_RANDOM_FACTOR - FP1) * r, MAX_BITS);
 
   /* Add 1 to the inner term and multiply with ACK_TIMEOUT, then
    * make the result a rounded Qx.FRAC_BITS */
@@ -1145,7 +1146,8 @@ coap_calc_timeout(coap_session_t *session, unsigned char r) {
 
   /* Multiply with COAP_TICKS_PER_SECOND to yield system ticks
    * (yields a Qx.FRAC_BITS) and shift to get an integer */
-  return SHR_FP((COAP_TICKS_PER_SECOND * result), FRAC_BITS);
+  result = SHR_FP((COAP_TICKS_PER_SECOND * result), FRAC_BITS);
+  return result > UINT_MAX ? UINT_MAX : (unsigned int)result;
 
 #undef FP1
 #undef SHR_FP
